@@ -107,6 +107,7 @@ func exprString(fset *token.FileSet, e ast.Expr) string {
 
 type xCtx struct {
 	protoDir string
+	extra    map[string]string // package name -> directory, for packages outside /repo/protocol
 	pkgs     map[string]*xPkg
 }
 
@@ -114,7 +115,11 @@ func (c *xCtx) pkg(name string) (*xPkg, error) {
 	if p, ok := c.pkgs[name]; ok {
 		return p, nil
 	}
-	p, err := loadPkg(filepath.Join(c.protoDir, name))
+	dir := filepath.Join(c.protoDir, name)
+	if d, ok := c.extra[name]; ok {
+		dir = d
+	}
+	p, err := loadPkg(dir)
 	if err != nil {
 		return nil, err
 	}
@@ -298,7 +303,11 @@ func extractSchemas(repo, root string) error {
 	if err != nil {
 		return err
 	}
-	c := &xCtx{protoDir: protoDir, pkgs: map[string]*xPkg{}}
+	c := &xCtx{protoDir: protoDir, pkgs: map[string]*xPkg{}, extra: map[string]string{}}
+	// the driver-registered test type with id-tagged fields (go/internal/tagtest), extracted like the others
+	if st, err := os.Stat(filepath.Join(root, "go", "internal", "tagtest")); err == nil && st.IsDir() {
+		c.extra["tagtest"] = filepath.Join(root, "go", "internal", "tagtest")
+	}
 	var msgs []xMsg
 	var dirs []string
 	for _, e := range ents {
@@ -307,6 +316,9 @@ func extractSchemas(repo, root string) error {
 		}
 	}
 	sort.Strings(dirs)
+	if _, ok := c.extra["tagtest"]; ok {
+		dirs = append(dirs, "tagtest") // last: the indices of the library's own types do not move
+	}
 	for _, d := range dirs {
 		p, err := c.pkg(d)
 		if err != nil {
@@ -422,7 +434,11 @@ func extractSchemas(repo, root string) error {
 		pk, _ := splitRoot(m)
 		if !imported[pk] {
 			imported[pk] = true
-			fmt.Fprintf(&gb, "\t%q\n", "github.com/segmentio/kafka-go/protocol/"+pk)
+			if pk == "tagtest" {
+				fmt.Fprintf(&gb, "\t%q\n", "kvharness/internal/tagtest")
+			} else {
+				fmt.Fprintf(&gb, "\t%q\n", "github.com/segmentio/kafka-go/protocol/"+pk)
+			}
 		}
 	}
 	gb.WriteString(")\n\n// All lists every type passed to protocol.Register / RegisterOverride.\nvar All = []Msg{\n")
